@@ -126,8 +126,11 @@ class UGrammar(Grammar, ABC, Generic[U, V, W]):
                 return False, [(information, start)]
             possibles = [
                 (a, b)
-                for a, b, _ in self.derive(information, start, function)  # type: ignore
+                for a, b, c in self.derive(information, start, function)  # type: ignore
+                if len(c) == len(args_P)  # type: ignore
             ]
+            if len(possibles) == 0:
+                return False, [(information, start)]
             for arg in args_P:
                 next_possibles = []
                 for possible in possibles:
@@ -144,8 +147,12 @@ class UGrammar(Grammar, ABC, Generic[U, V, W]):
         elif isinstance(program, (Primitive, Variable, Constant)):
             if program not in self.rules[start]:
                 return False, [(information, start)]
-            possibles = [(a, b) for a, b, _ in self.derive(information, start, program)]
-            return True, possibles
+            possibles = [
+                (a, b)
+                for a, b, c in self.derive(information, start, program)
+                if len(c) == 0  # type: ignore
+            ]
+            return len(possibles) > 0, possibles or [(information, start)]
         return False, [(information, start)]
 
     def clean(self) -> None:
@@ -302,7 +309,9 @@ class UGrammar(Grammar, ABC, Generic[U, V, W]):
             ] = [
                 [(b, start, function, c, a)]  # type: ignore
                 for a, b, c in self.derive(information, start, function)  # type: ignore
+                if len(c) == len(args_P)  # type: ignore
             ]
+            next_possibles = possibles
             for arg in args_P:
                 next_possibles = []
                 for possible in possibles:
@@ -322,6 +331,8 @@ class UGrammar(Grammar, ABC, Generic[U, V, W]):
             alternatives = []
             for new_possible in new_possibles:
                 information, next, v = new_possible
+                if len(v) != 0:  # type: ignore
+                    continue
                 alternatives.append([(next, start, program, v, information)])
             return alternatives
         return []
